@@ -183,7 +183,7 @@ def validate(ctx, recs):
     for lo in range(0, len(recs), 3000):
         chunk = recs[lo:lo + 3000]
         tp = core.write_json(os.path.join(ctx.tmp, "pk_%d.json" % len(ctx.cov["tlc_runs"])), chunk)
-        r = core.tlc("Trace_PkgConfig", workers=1, env=light({"TRACE_FILE": tp}), timeout=3000)
+        r = core.tlc("Trace_PkgConfig", workers=1, env=(light({"TRACE_FILE": tp}) if len(chunk) < 600 else {"TRACE_FILE": tp}), timeout=3000)
         ctx.add_tlc("Trace_PkgConfig", r, count_states=False)
         chk = core.tla_tuples(r.out, "CHECKED")
         if len(chk) != 1 or int(chk[0][0]) != len(chunk):
@@ -216,7 +216,7 @@ def run(ctx):
     try:
         rng = ctx.rng
         # ---------------------------------------------------------------- code -> spec
-        cases = [rand_pkgs(rng) for _ in range(500 if quick else 20000)]
+        cases = [rand_pkgs(rng) for _ in range(500 if quick else 6000)]
         outs = list(pool.map(stub.run, cases))
         recs, metas = [], []
         for pk, (err, res, names) in zip(cases, outs):
